@@ -113,3 +113,14 @@ func targetBroadcastDims(dims1, dims2 []int) (dims []int) {
 
 	return dims
 }
+
+func copiedIndex(index []tensor.Range) (cidx []tensor.Range) {
+	if index == nil {
+		return nil
+	}
+
+	cidx = make([]tensor.Range, len(index))
+	copy(cidx, index)
+
+	return cidx
+}
